@@ -553,7 +553,14 @@ fn check(args: &[String]) -> i32 {
     }
     let wall = t0.elapsed().as_secs_f64();
     let worker_wall = merged.get("wall_s").and_then(|x| x.as_f64()).unwrap_or(wall).max(0.001);
-    let samples = merged.get("samples").cloned().unwrap_or(json!([]));
+    let mut samples = merged.get("samples").cloned().unwrap_or(json!([]));
+    if let Some(a) = samples.as_array_mut() {
+        a.truncate(6);
+        if a.is_empty() {
+            println!("HARNESS-ERROR no sample case was recorded by any worker");
+            exit = 2;
+        }
+    }
     let mut coverage = json!({
         "evaluations": evaluations,
         "distinct_nontrivial": distinct,
